@@ -187,7 +187,9 @@ pub fn param_ty(name: &str, base: &FTy) -> FTy {
 
 /// `[u8; N]` with const parameter `n` instantiated at 2
 pub fn const_arr(n: &str) -> FTy {
-    let mut t = ft("[u8; 2]", &["[1u8, 2u8]", "[2u8, 1u8]", "[0u8, 0u8]"], (ALL & !DEFAULT) | CONSTVAL);
+    // `[u8; N]: Default` does not hold for every N, but the automatic where-clause `[u8; N]: Default` makes the impl
+    // legal and applicable to the instantiation N = 2, which is exactly what C11 states
+    let mut t = ft("[u8; 2]", &["[1u8, 2u8]", "[2u8, 1u8]", "[0u8, 0u8]"], ALL | CONSTVAL);
     t.src = format!("[u8; {n}]");
     t.params = vec![n.to_string()];
     t
